@@ -136,6 +136,16 @@ CHECKS = {
             "ordering heuristic; each verdict is compared with an exact decision, and every marked set is checked sound.",
             "Trusted: TLC; the oracle is model-checked against the full fixpoint on the 3-rule family (LazyOK).",
             "DESIGN.md section 3 C17"),
+    "C18": ("TLA+ generators for feature structures (FSGen) and annotated grammars (FCFGGen) enumerated by TLC; unify on "
+            "ordered pairs (both argument orders) and FCFG.contains replayed and judged by TraceFCFG with FSSem "
+            "(unification = congruence closure, the greatest lower bound) and with the instantiate-to-CFG oracle over a "
+            "finite value domain evaluated by CFGSem",
+            "Spec-generated consistently typed structures (atoms, unspecified values, nested structures, shared leaves) "
+            "paired by a deterministic sample of the product; spec-generated feature grammars (constants, agreement "
+            "variables, epsilon productions, ambiguity, left recursion) and the feature-free family, on all words up to "
+            "length 3; success/refusal, the resulting structure and membership are decided exactly by TLC.",
+            "Trusted: TLC, projection of feature structures by node identity. Pairs are sampled; words up to length 3.",
+            "DESIGN.md section 3 C18"),
 }
 
 NOT_YET = "check not built yet in this round (see DESIGN.md section 9, build order); no claim is made"
